@@ -264,11 +264,16 @@ impl TryFromHeaderValue for bool {
     }
 }
 
+/// Parses the whole value as a decimal integer (no trailing bytes, no overflow).
+fn parse_integer<T: FromStr>(bytes: &[u8]) -> Option<T> {
+    std::str::from_utf8(bytes).ok()?.parse::<T>().ok()
+}
+
 impl TryFromHeaderValue for i32 {
     type Error = ParseHeaderError;
 
     fn try_from_header_value(val: &HeaderValue) -> Result<Self, Self::Error> {
-        atoi::atoi(val.as_bytes()).ok_or(ParseHeaderError::Integer)
+        parse_integer(val.as_bytes()).ok_or(ParseHeaderError::Integer)
     }
 }
 
@@ -276,7 +281,7 @@ impl TryFromHeaderValue for i64 {
     type Error = ParseHeaderError;
 
     fn try_from_header_value(val: &HeaderValue) -> Result<Self, Self::Error> {
-        atoi::atoi(val.as_bytes()).ok_or(ParseHeaderError::Long)
+        parse_integer(val.as_bytes()).ok_or(ParseHeaderError::Long)
     }
 }
 
